@@ -306,4 +306,5 @@ def write_with(doc, prefixes, sites, default=None):
     sites.on("empty-containers")
     if bundles:
         sites.on("two-defaults")
+    sites.on("default-ns")  # a global dialect: one site
     sites.on("reverse-keys")
